@@ -9,11 +9,11 @@ variable (cfg : Cfg)
 /-- what the judge asks of one call's outcome (routing observations aside) -/
 structure JudgeFacts (rt : Routing) (c : Call) (o : Out) : Prop where
   nodup : (keys o.rt).Nodup
-  valid : o.exch.all (fun e => validReq e.req) = true
+  valid : callWF c → o.exch.all (fun e => validReq e.req) = true
   fallback : fallbackOk c o.exch = true
   target : ∀ r s, targetOk ⟨c, o.exch, o.res, r, s⟩ = true
   mirror : o.exch.foldl foldExch rt = o.rt
-  result : ∀ r s, resultOk ⟨c, o.exch, o.res, r, s⟩ = true
+  result : callWF c → ∀ r s, resultOk ⟨c, o.exch, o.res, r, s⟩ = true
   unsubIssued : unsubIssuedOk o.exch = true
 
 /-! ### "once an unsubscribe has been issued its SID is no longer routed" — at the arrival of every UNSUBSCRIBE -/
@@ -67,9 +67,9 @@ theorem runCall_unsubIssued (rt : Routing) (c : Call) (rs : List Reaction) :
   | resubscribeAll => exact resubAll_unsubP cfg _ rt rs none
   | unsubscribeAll => exact unsubAll_unsubP cfg _ rt rs
 
-theorem judgeFacts_runCall (rt : Routing) (c : Call) (rs : List Reaction) (hn : (keys rt).Nodup) (hw : callWF c) :
+theorem judgeFacts_runCall (rt : Routing) (c : Call) (rs : List Reaction) (hn : (keys rt).Nodup) :
     JudgeFacts rt c (runCall cfg rt c rs) :=
-  let h := runCall_ok cfg rt c rs hn hw
+  let h := runCall_ok cfg rt c rs hn
   ⟨h.nodup, h.valid, runCall_fallback cfg rt c rs, h.target, h.mirror, h.result, runCall_unsubIssued cfg rt c rs⟩
 
 theorem takeReacts_length (n : Nat) (rs : List Reaction) : (takeReacts n rs).1.length = n := by
@@ -232,11 +232,12 @@ theorem resubAllSusp_facts (rt : Routing) (rs : List Reaction) (hn : (keys rt).N
   have e2 : (fun x : Nat × Reaction => (⟨subscribeRequest cfg x.1 Gen.C09Gena.defaultTimeoutResubscribe, x.2⟩ : Exch))
       = subE cfg Gen.C09Gena.defaultTimeoutResubscribe := rfl
   rw [e1, e2]
-  refine ⟨?_, ?_, ?_, fun _ _ => by simp [targetOk]; split <;> rfl, ?_, fun _ _ => rfl, ?_⟩
+  refine ⟨?_, ?_, ?_, fun _ _ => by simp [targetOk]; split <;> rfl, ?_, fun _ _ _ => rfl, ?_⟩
   · apply phase3_nodup
     rw [← hp2]
     exact phase2_nodup _ _ _ hn
   · simp only [List.all_append, List.all_map, Bool.and_eq_true, List.all_eq_true]
+    intro _
     exact ⟨fun x _ => by simp [renE, ren_valid cfg _ _ _ defaultTimeout_nonneg],
            fun x _ => by simp [subE, sub_valid cfg _ _ defaultTimeout_nonneg]⟩
   · simp only [fallbackOk, List.all_eq_true]
@@ -253,15 +254,15 @@ theorem resubAllSusp_facts (rt : Routing) (rs : List Reaction) (hn : (keys rt).N
     exact ⟨fun x _ => unsubP_ren cfg _ _ _ _, fun x _ => unsubP_sub cfg _ _ _⟩
 
 theorem judgeFacts_runCallS (susp : Bool) (rt : Routing) (c : Call) (rs : List Reaction) (hn : (keys rt).Nodup)
-    (hw : callWF c) : JudgeFacts rt c (runCallS cfg susp rt c rs) := by
+    : JudgeFacts rt c (runCallS cfg susp rt c rs) := by
   cases susp with
-  | false => cases c <;> exact judgeFacts_runCall cfg rt _ rs hn hw
+  | false => cases c <;> exact judgeFacts_runCall cfg rt _ rs hn
   | true =>
     cases c with
     | resubscribeAll => exact resubAllSusp_facts cfg rt rs hn
-    | subscribe _ _ => exact judgeFacts_runCall cfg rt _ rs hn hw
-    | resubscribe _ _ => exact judgeFacts_runCall cfg rt _ rs hn hw
-    | unsubscribe _ => exact judgeFacts_runCall cfg rt _ rs hn hw
-    | unsubscribeAll => exact judgeFacts_runCall cfg rt _ rs hn hw
+    | subscribe _ _ => exact judgeFacts_runCall cfg rt _ rs hn
+    | resubscribe _ _ => exact judgeFacts_runCall cfg rt _ rs hn
+    | unsubscribe _ => exact judgeFacts_runCall cfg rt _ rs hn
+    | unsubscribeAll => exact judgeFacts_runCall cfg rt _ rs hn
 
 end Upnp.C09
